@@ -14,7 +14,7 @@ RULE = ("scenario = a real cbreaker.New(next, <generated condition>, Fallback/Re
         "probes across the tripped interval (T, T+1, .., T+fb-1, T+fb) and recovery sweeps; 10% park/re-trip scenarios: a request is parked inside "
         "the breaker's 'is in error state' Warn (Logger option; on this code it holds c.m, probed via String()), requests admitted earlier fail and "
         "re-trip, the parked request is decided afterwards (model: the arrive step happens at the decision); options Logger/Verbose/"
-        "Fallback (custom, default, ResponseFallback, RedirectFallback)/OnTripped+OnStandby (or none) are drawn per scenario; "
+        "Fallback (custom, default, ResponseFallback, RedirectFallback)/OnTripped+OnStandby (or none) are drawn per scenario; 6% of the requests carry an already cancelled context; "
         "non-trivial = at least one observed trip, a request arriving inside the shielded interval, and a request admitted before the "
         "trip completing after it")
 ASSUMPTIONS = ["time stamps never decrease (frozen clock only advances); wall-clock steps backwards are not modelled",
